@@ -106,10 +106,13 @@ class G:
                 else:
                     out.extend(go(x, max(budget - 1, depth.get(x, 1) + 0)))
                 if len(out) > 40:
+                    cut[0] = True      # too long: abandoned (a truncated derivation is not a sentence)
                     break
             return out
 
-        return tuple(go(start, maxdepth))[:40]
+        cut = [False]
+        w = tuple(go(start, maxdepth))
+        return None if cut[0] or len(w) > 40 else w
 
 
 def render(tokens, rng=None):
